@@ -5,10 +5,8 @@ import (
 	"io"
 	"math/rand"
 	"os"
-	"path/filepath"
 	"sort"
 	"time"
-	"verif/harness/internal/c11alt"
 
 	"github.com/biogo/biogo/morass"
 
@@ -39,6 +37,12 @@ type c11Cycle struct {
 	// Abandoned: the values are pushed and the cycle is given up with Clear, without Finalise (the background writers of a
 	// concurrent sorter may still be at work when Clear is called); the cycles after it are judged as always.
 	Abandoned bool `json:"abandoned_with_clear_before_finalise,omitempty"`
+	// ForeignPush (1-based, 0 = none): before the push with this number (len+1: after the last push) a value of another
+	// type is pushed. BadPull (1-based, 0 = none): before the pull with this number, while values remain, Pull is called
+	// with a destination it cannot set. A call the sorter refuses has pushed or pulled nothing: Pos and Len stay and the
+	// cycle goes on as if the call had not been made.
+	ForeignPush int `json:"value_of_another_type_pushed_before_push_number,omitempty"`
+	BadPull     int `json:"pull_into_a_non_pointer_before_pull_number,omitempty"`
 }
 
 type c11Hist struct {
@@ -50,6 +54,13 @@ type c11Hist struct {
 	AutoClear bool       `json:"auto_clear"`
 	AutoClean bool       `json:"auto_clean"`
 	Cycles    []c11Cycle `json:"cycles"`
+	// Elem: flavour of the struct element type: "" (c11S), "gob-registered" / "gob-registered-by-name" (the harness has
+	// registered the type with gob itself), "rich" (string, float, bool, nested struct, slice and map fields)
+	Elem string `json:"struct_flavour,omitempty"`
+	// ReuseDest: every Pull of a cycle writes into the same variable; a third of the struct payloads are 0
+	ReuseDest bool `json:"one_destination_variable_for_all_pulls,omitempty"`
+	// LowFdLimit: the history runs with a descriptor limit of 40 above what is open at its start, collector off
+	LowFdLimit bool `json:"descriptor_limit_lowered,omitempty"`
 }
 
 func (h c11Hist) word() string {
@@ -113,6 +124,27 @@ func c11GenHist(rng *rand.Rand, maxCycles int) c11Hist {
 			}
 		}
 	}
+	if h.Struct && !h.AltStruct && rng.Intn(3) == 0 {
+		h.Elem = []string{"gob-registered", "gob-registered-by-name", "rich"}[rng.Intn(3)]
+	}
+	h.ReuseDest = rng.Intn(2) == 0
+	for i := range h.Cycles {
+		c := &h.Cycles[i]
+		if c.Abandoned || c.Faulted {
+			continue
+		}
+		if rng.Intn(8) == 0 {
+			c.ForeignPush = 1 + rng.Intn(len(c.Keys)+1)
+		}
+		if rng.Intn(8) == 0 && len(c.Keys) > 0 {
+			// before pull number 1..want+1, but only while a value remains
+			want := map[string]int{"none": 0, "one": 1, "half": len(c.Keys) / 2}[c.Drain]
+			if c.Drain == "all" || c.Drain == "all+extra" {
+				want = len(c.Keys)
+			}
+			c.BadPull = 1 + rng.Intn(minInt(want, len(c.Keys)-1)+1)
+		}
+	}
 	return h
 }
 
@@ -145,6 +177,7 @@ func c11Enumerated(idx int, rng *rand.Rand) (c11Hist, bool) {
 				}
 				h.Cycles = append(h.Cycles, c11Cycle{Keys: keys, Drain: drains[d%5]})
 			}
+			h.ReuseDest = rng.Intn(2) == 0
 			return h, true
 		}
 		total += per * 8
@@ -165,39 +198,30 @@ type c11Result struct {
 	faultedSeen  int    // ... in which Push or Finalise reported an error
 	dir          string // the sorter's scratch parent directory (caller removes it)
 	residue      []string
+	refusedPush  int  // pushes of a value of another type that the sorter refused
+	refusedPull  int  // pulls into a destination that cannot be set
+	foreignTaken bool // the sorter accepted a value of another type: the rest of the history is not judged
+	reusedPulls  int  // pulls into a destination variable that already held an earlier value
 }
 
 // c11RunHist executes a history on a real Morass, checking the model after every call.
 // scratch is a private directory; the sorter creates its own temp dir inside it.
 func c11RunHist(r *obs.Run, h c11Hist, scratch string, checkResidue bool) (res c11Result) {
-	var proto interface{} = c11Int(0)
-	if h.Struct {
-		proto = c11S{}
-		if h.AltStruct {
-			proto = c11alt.Proto()
-		}
-	}
-	m, err := morass.New(proto, "run", scratch, h.Chunk, h.Concurrent)
+	m, sorterDir, err := c11NewSorter(h, scratch, nil)
 	if err != nil {
 		res.class, res.what = "harness", "morass.New: "+err.Error()
 		return
 	}
-	m.AutoClear, m.AutoClean = h.AutoClear, h.AutoClean
+	return c11RunOn(h, m, sorterDir, checkResidue)
+}
+
+// c11RunOn runs the history on the sorter m, whose own directory is sorterDir ("" if unknown). It talks to nothing but
+// the sorter and the file system, so two of them may run side by side.
+func c11RunOn(h c11Hist, m *morass.Morass, sorterDir string, checkResidue bool) (res c11Result) {
+	el := c11ElemOf(h)
 	fail := func(class, what string) c11Result {
 		res.class, res.what = class, what
 		return res
-	}
-	subdirs := func() []string {
-		ents, _ := os.ReadDir(scratch)
-		var out []string
-		for _, e := range ents {
-			out = append(out, e.Name())
-		}
-		return out
-	}
-	sorterDir := ""
-	if d := subdirs(); len(d) == 1 {
-		sorterDir = filepath.Join(scratch, d[0])
 	}
 	payload := 0
 	cleanedByAutoClean := false
@@ -207,14 +231,7 @@ func c11RunHist(r *obs.Run, h c11Hist, scratch string, checkResidue bool) (res c
 		}
 		if cyc.Abandoned && !cyc.Faulted {
 			for i, k := range cyc.Keys {
-				var e morass.LessInterface = c11Int(k)
-				if h.Struct {
-					e = c11S{K: k, P: -2}
-					if h.AltStruct {
-						e = c11alt.New(k, -2)
-					}
-				}
-				if err := m.Push(e); err != nil {
+				if err := m.Push(el.mk(k, -2)); err != nil {
 					return fail("push-error", when(fmt.Sprintf("push %d returned %v", i, err)))
 				}
 			}
@@ -235,14 +252,7 @@ func c11RunHist(r *obs.Run, h c11Hist, scratch string, checkResidue bool) (res c
 			os.RemoveAll(sorterDir)
 			sawErr := false
 			for _, k := range cyc.Keys {
-				var e morass.LessInterface = c11Int(k)
-				if h.Struct {
-					e = c11S{K: k, P: -1}
-					if h.AltStruct {
-						e = c11alt.New(k, -1)
-					}
-				}
-				if err := m.Push(e); err != nil {
+				if err := m.Push(el.mk(k, -1)); err != nil {
 					sawErr = true
 					break
 				}
@@ -265,23 +275,45 @@ func c11RunHist(r *obs.Run, h c11Hist, scratch string, checkResidue bool) (res c
 			}
 			continue
 		}
-		type kv struct{ k, p int }
+		type kv = c11KV
 		var pushed []kv
-		for i, k := range cyc.Keys {
-			var e morass.LessInterface = c11Int(k)
-			payload++
-			if h.Struct {
-				e = c11S{K: k, P: payload}
-				if h.AltStruct {
-					e = c11alt.New(k, payload)
-				}
+		// foreign: a value of another type is offered; a sorter that refuses it has not pushed it
+		foreign := func(i int) (stop bool, out c11Result) {
+			err := m.Push(el.foreign)
+			if err == nil {
+				res.foreignTaken = true // a sorter of mixed values: outside what the model describes, nothing is judged
+				m.CleanUp()
+				return true, res
 			}
-			pushed = append(pushed, kv{k, payload})
+			res.refusedPush++
+			if m.Pos() != int64(i) || m.Len() != int64(i) {
+				return true, fail("refused-call", when(fmt.Sprintf("a %T pushed before push %d was refused (%v), yet Pos=%d Len=%d afterwards, want %d and %d", el.foreign, i, err, m.Pos(), m.Len(), i, i)))
+			}
+			return false, res
+		}
+		for i, k := range cyc.Keys {
+			payload++
+			p := payload
+			if h.ReuseDest && payload%3 == 0 {
+				p = 0
+			}
+			e := el.mk(k, p)
+			pushed = append(pushed, kv{k, p})
 			if m.Pos() != int64(i) || m.Len() != int64(i) {
 				return fail("pos-len", when(fmt.Sprintf("before push %d Pos=%d Len=%d", i, m.Pos(), m.Len())))
 			}
+			if cyc.ForeignPush == i+1 {
+				if stop, out := foreign(i); stop {
+					return out
+				}
+			}
 			if err := m.Push(e); err != nil {
 				return fail("push-error", when(fmt.Sprintf("push %d returned %v", i, err)))
+			}
+		}
+		if cyc.ForeignPush == len(cyc.Keys)+1 {
+			if stop, out := foreign(len(cyc.Keys)); stop {
+				return out
 			}
 		}
 		if m.Len() != int64(len(cyc.Keys)) || m.Pos() != int64(len(cyc.Keys)) {
@@ -323,25 +355,33 @@ func c11RunHist(r *obs.Run, h c11Hist, scratch string, checkResidue bool) (res c
 		sort.Ints(sortedKeys)
 		last := 0
 		eof := false
+		pullInto := el.puller(m, h.ReuseDest)
 		pull := func() (kv, error) {
-			if h.Struct && h.AltStruct {
-				v := c11alt.Ptr()
-				err := m.Pull(v)
-				k, p := c11alt.Fields(v)
-				return kv{k, p}, err
+			v, bad, err := pullInto()
+			if err == nil && bad != "" {
+				err = fmt.Errorf("nil, but the value is damaged: %s", bad)
 			}
-			if h.Struct {
-				var v c11S
-				err := m.Pull(&v)
-				return kv{v.K, v.P}, err
+			return v, err
+		}
+		// badPull: Pull is handed something it cannot set while values remain; nothing may be consumed by that call
+		badPull := func(i int) bool {
+			err := m.Pull(el.unsettable)
+			res.refusedPull++
+			if m.Pos() != int64(i) || m.Len() != int64(len(cyc.Keys)) {
+				fail("refused-call", when(fmt.Sprintf("Pull into a %T (not a pointer) before pull %d returned %v and left Pos=%d Len=%d, want %d and %d", el.unsettable, i, err, m.Pos(), m.Len(), i, len(cyc.Keys))))
+				return false
 			}
-			var v c11Int
-			err := m.Pull(&v)
-			return kv{int(v), 0}, err
+			return true
 		}
 		for i := 0; i < want; i++ {
+			if cyc.BadPull == i+1 && !badPull(i) {
+				return res
+			}
 			v, err := pull()
 			res.pulls++
+			if h.ReuseDest && i > 0 {
+				res.reusedPulls++
+			}
 			if err != nil {
 				return fail("pull-error", when(fmt.Sprintf("pull %d of %d returned %v", i, len(cyc.Keys), err)))
 			}
@@ -359,6 +399,9 @@ func c11RunHist(r *obs.Run, h c11Hist, scratch string, checkResidue bool) (res c
 			if m.Pos() != int64(i+1) || m.Len() != int64(len(cyc.Keys)) {
 				return fail("pos-len", when(fmt.Sprintf("after pull %d Pos=%d Len=%d", i, m.Pos(), m.Len())))
 			}
+		}
+		if cyc.BadPull == want+1 && want < len(cyc.Keys) && !badPull(want) {
+			return res
 		}
 		if cyc.Drain == "all" || cyc.Drain == "all+extra" {
 			n := 1
@@ -436,7 +479,10 @@ func init() {
 		ID:    "C11",
 		Level: "exploration",
 		Rule: "one usage history per case on one sorter: first every memory/disk ordering of 1..3 cycles x drain {none, one, half, all, all+extra} x AutoClear x concurrent mode (enumerated), then random histories of 1..5 cycles with per-cycle push counts from {0,1,c-1,c,c+1,2c,3c+2,random<=8c}, " +
-			"chunk sizes {1,2,3,7,64}, int and struct elements with duplicate keys; model checked after every call (Pos, Len, order, multiset, io.EOF). Built with -race. Non-trivial = >=2 cycles or a spilling cycle; distinct = (chunk, mode, per-cycle mem/disk:count:drain) word",
+			"chunk sizes {1,2,3,7,64}, int and struct elements with duplicate keys; model checked after every call (Pos, Len, order, multiset, io.EOF). Built with -race. " +
+			"Also: struct types the caller has registered with gob itself and a struct with string/float/bool/struct/slice/map fields; calls the sorter refuses inside a cycle (a value of another type pushed, Pull into a non-pointer: Pos, Len and the cycle's values stay); one destination variable for all pulls of a cycle; " +
+			"1 random history in 100 has 60 cycles and runs with 40 spare file descriptors; 6 in 100 run next to a second sorter with a history of its own (same parent directory and prefix, each judged alone); once per process eight sorters for eight unseen element types are created at the same moment. " +
+			"Non-trivial = >=2 cycles or a spilling cycle; distinct = (chunk, mode, per-cycle mem/disk:count:drain) word",
 		Batches: func(t string) int {
 			if t == "thorough" {
 				return 16
@@ -449,15 +495,21 @@ func init() {
 		Case:        c11Case,
 		MinDistinct: func(t string) int { return 3000 },
 		Floors: func(string) map[string]int64 {
-			return map[string]int64{"histories": 8000, "cycles_spilled": 5000, "cycles_in_memory": 5000, "memory_then_disk_histories": 1500, "disk_then_memory_histories": 1500, "pulls": 50000, "concurrent_histories": 3000}
+			return map[string]int64{"histories": 8000, "cycles_spilled": 5000, "cycles_in_memory": 5000, "memory_then_disk_histories": 1500, "disk_then_memory_histories": 1500, "pulls": 50000, "concurrent_histories": 3000,
+				"pushes_of_another_type_refused": 200, "pulls_into_a_non_pointer": 150, "pulls_into_a_reused_destination": 80000, "long_histories_with_40_spare_descriptors": 3,
+				"histories_with_a_second_sorter_at_work": 35, "parallel_first_use_starts": 6}
 		},
 		Assumptions: []string{"a use cycle is push*, Finalise, pull*, Clear (explicit, or implicit through AutoClear when drained to io.EOF)", "stability is not assumed: equal keys may come out in any order, payloads are compared as a multiset"},
 	})
 }
 
+var c11ParStarted bool
+
 func c11Case(r *obs.Run, i int) {
 	nEnum := r.Share(c11EnumTotal)
 	var h c11Hist
+	var pair *c11Hist
+	lowFd := false
 	if i < nEnum {
 		var ok bool
 		h, ok = c11Enumerated(i*r.NBatch+r.Batch, r.Rng)
@@ -466,19 +518,81 @@ func c11Case(r *obs.Run, i int) {
 		}
 	} else {
 		h = c11GenHist(r.Rng, 5)
+		switch x := r.Rng.Intn(100); {
+		case x == 0:
+			h = c11GenLong(r.Rng)
+		case x <= 6: // a second sorter, with a history of its own, at work next to this one
+			h2 := c11GenHist(r.Rng, 3)
+			if h2.Chunk > 64 {
+				h2.Chunk = 64
+			}
+			pair = &h2
+		}
 	}
 	scratch := c11Scratch(r)
 	defer os.RemoveAll(scratch)
-	r.Crumb(fmt.Sprintf("%+v", h))
-	var res c11Result
+	if !c11ParStarted {
+		// once per process, before any sorter exists: eight sorters for eight unseen element types created at once
+		c11ParStarted = true
+		r.Crumb("eight sorters for new element types started together")
+		classes, whats := c11ParallelStart(r.Seed*1000+int64(r.Batch), scratch)
+		r.Count("parallel_first_use_starts", 1)
+		r.Count("sorters_created_at_the_same_moment_for_unseen_types", 8)
+		for k := range classes {
+			if classes[k] == "harness" {
+				r.Inconclusive(whats[k])
+				continue
+			}
+			r.Violate(classes[k], "eight sorters created at the same moment, each for an element type of its own: "+whats[k], map[string]interface{}{"what": whats[k], "all_failures": whats})
+		}
+	}
+	r.Crumb(fmt.Sprintf("%+v pair=%+v", h, pair))
+	var res, res2 c11Result
 	func() {
 		defer func() {
 			if e := recover(); e != nil {
 				res.class, res.what = "panic", fmt.Sprintf("panic: %v", e)
 			}
 		}()
-		res = c11RunHist(r, h, scratch, false)
+		switch {
+		case pair != nil:
+			res, res2 = c11RunPair(h, *pair, scratch)
+		case h.LowFdLimit:
+			restore, ok := c11LowerFdLimit(40)
+			defer restore() // before anything is reported: writing a witness needs a descriptor
+			if ok {
+				lowFd = true
+			}
+			res = c11RunHist(r, h, scratch, false)
+		default:
+			res = c11RunHist(r, h, scratch, false)
+		}
 	}()
+	if pair != nil {
+		r.Count("histories_with_a_second_sorter_at_work", 1)
+		r.Count("cycles_of_the_second_sorter", int64(res2.spills+res2.memCycles+res2.abandoned+res2.faulted))
+		r.Count("pulls", int64(res2.pulls))
+		switch res2.class {
+		case "":
+		case "harness":
+			r.Inconclusive(res2.what)
+		default:
+			r.Violate(res2.class, "second of two sorters at work side by side: "+res2.what, map[string]interface{}{"history": *pair, "history_of_the_other_sorter": h, "what": res2.what})
+		}
+	}
+	if lowFd {
+		r.Count("long_histories_with_40_spare_descriptors", 1)
+		r.Count("cycles_in_long_histories", int64(res.spills+res.memCycles+res.abandoned))
+	}
+	r.Count("pushes_of_another_type_refused", int64(res.refusedPush+res2.refusedPush))
+	r.Count("pulls_into_a_non_pointer", int64(res.refusedPull+res2.refusedPull))
+	r.Count("pulls_into_a_reused_destination", int64(res.reusedPulls+res2.reusedPulls))
+	if res.foreignTaken || res2.foreignTaken {
+		r.Count("histories_not_judged_after_a_foreign_value_was_accepted", 1)
+	}
+	if h.Elem != "" && res.class == "" {
+		r.Count("histories_with_"+h.Elem+"_struct_elements", 1)
+	}
 	r.Count("histories", 1)
 	r.Count("cycles_spilled", int64(res.spills))
 	r.Count("earlier_cycles_abandoned_before_finalise", int64(res.abandoned))
@@ -503,8 +617,14 @@ func c11Case(r *obs.Run, i int) {
 			break
 		}
 	}
-	if res.class != "" {
-		r.Violate(res.class, res.what, map[string]interface{}{"history": h, "what": res.what})
+	if res.class == "harness" {
+		r.Inconclusive(res.what)
+	} else if res.class != "" {
+		w := map[string]interface{}{"history": h, "what": res.what}
+		if pair != nil {
+			w["history_of_the_other_sorter"] = *pair
+		}
+		r.Violate(res.class, res.what, w)
 	}
 	r.Note(h.word(), len(h.Cycles) >= 2 || res.spills > 0)
 	if r.WantSample() && len(h.Cycles) <= 2 && h.Chunk <= 3 {
